@@ -1,6 +1,8 @@
 #![allow(warnings)]
 mod common;
 mod c20;
+mod c07;
+mod interp;
 
 use common::*;
 
@@ -19,6 +21,7 @@ fn main() {
   let mut sink = Sink::new();
   let (generate, exec): (fn(u64, bool, &mut Sink) -> Vec<String>, fn(&str) -> String) = match prop {
     "C20" => (c20::generate, c20::exec),
+    "C07" => (c07::generate, c07::exec),
     _ => { eprintln!("unknown property {}", prop); std::process::exit(2); }
   };
   let cases: Vec<String> = if mode == "replay" {
